@@ -234,4 +234,21 @@ theorem config_change_state_inventory :
     "set_config_mode" ∈ GeckoModel.Coop.actions .call GeckoModel.Generated.Skeletons.sk_automation_async_facade__GeckoAsyncFacade__on_config_device_change := by
   decide +kernel
 
+/-- **a pump or blower change is handed on, whatever happened to earlier ones**: the chain item -> sensor -> device -> facade is
+four `Observable`s; the walk keeps no memory (state inventory over the regenerated skeletons of `Observable`, the base of every item,
+sensor, device and facade): `_on_change` assigns no attribute - there is no "busy" or "already told" mark that a failing observer
+could leave set - and calls every observer that is still registered; `watch` / `unwatch` touch nothing but the observer list.  So
+whatever happened during one notification (an observer raised, the walk was abandoned), the next change is delivered like the first -/
+theorem device_change_reaches_the_facade_whatever_happened_before :
+    GeckoModel.Coop.selfStateWritten GeckoModel.Generated.Skeletons.sk_driver_observable__Observable__on_change = [] ∧
+    GeckoModel.Coop.actions .brT GeckoModel.Generated.Skeletons.sk_driver_observable__Observable__on_change = ["observer in self._observers"] ∧
+    "observer" ∈ GeckoModel.Coop.actions .call GeckoModel.Generated.Skeletons.sk_driver_observable__Observable__on_change ∧
+    (GeckoModel.Coop.selfStateWritten GeckoModel.Generated.Skeletons.sk_driver_observable__Observable_watch, GeckoModel.Coop.actions .call GeckoModel.Generated.Skeletons.sk_driver_observable__Observable_watch) =
+      ([], ["self._observers.append"]) ∧
+    (GeckoModel.Coop.selfStateWritten GeckoModel.Generated.Skeletons.sk_driver_observable__Observable_unwatch, GeckoModel.Coop.actions .call GeckoModel.Generated.Skeletons.sk_driver_observable__Observable_unwatch) =
+      ([], ["self._observers.remove"]) := by decide +kernel
+
+/-- non-vacuity: a re-entrancy mark would be seen -/
+example : GeckoModel.Coop.selfStateWritten (.seq (.ev (.act ⟨.set, "self._notifying"⟩)) (.ev (.act ⟨.call, "observer"⟩))) = ["self._notifying"] := by decide +kernel
+
 end GeckoModel.C17
